@@ -1,47 +1,61 @@
-//! Stream `cfgp` (C15, configuration glue): a `Client` assembled by `Client::builder()` with a pool configuration
-//! handed over in one of the ways the builder offers (`with_pool` on a fresh builder, after `with_default_pool`, after
-//! `without_pool`, before the transport is chosen, twice, on `Builder::default()`, or by editing `pool()` in place),
-//! over in-memory connections to a real hyperdriver server that counts its connections. A burst of `n` concurrent
-//! HTTP/1.1 requests to one origin is answered only once all of them have arrived (so there are `n` connections),
-//! everything is released, and after `wait` ms of real time one more request is made.
+//! Stream `cfgp` (C15, C05, C04, C19: configuration glue): a `Client` assembled by `Client::builder()` in one of the orders the
+//! builder allows, over in-memory connections to a real hyperdriver server that counts its connections. What was configured -
+//! pool limits, request timeout, redirect policy, user agent - must be what the client does, whichever builder calls came
+//! before or after (several of them rebuild the builder value field by field).
+//!   seq 0-6: the pool configuration handed over in different ways (`with_pool` on a fresh builder, after `with_default_pool`,
+//!            after `without_pool`, before the transport is chosen, twice, on `Builder::default()`, edited through `pool()`)
+//!   seq 7-15: everything configured first, then a chain of the calls that rebuild the builder: transport / protocol in
+//!            either order, `with_tcp`, `with_protocol`, a redirect policy (limited / standard / none), `layer`, `with_body`
+//! A burst of `n` concurrent HTTP/1.1 requests to one origin is answered only once all of them have arrived (so there are `n`
+//! connections), everything is released, and after `wait` ms of real time one more request is made; then a request whose
+//! handler takes 400 ms, and one that is answered with a redirect.
 //!
-//! line: `cfgp <seq 0-6> <max_idle_per_host> <idle_timeout ms|-> <n> <wait ms>`
-//! obs : `<connections still open after the burst has settled> <connections accepted in all>` or `unreliable`
+//! line: `cfgp <seq> <max_idle_per_host> <idle_timeout ms|-> <n> <wait ms> <request timeout ms|-> <redirects n|s|l> <own user agent 0|1>`
+//! obs : `<connections still open after the burst has settled> <connections accepted in all after the follow-up>
+//!        ua=<0|1 the server saw the configured user agent> slow=<ok|timeout|err> redir=<status>` or `unreliable`
 use crate::rng::Rng;
 use http_body_util::BodyExt;
+use hyperdriver::client::conn::protocol::auto::HttpConnectionBuilder;
 use hyperdriver::client::conn::transport::duplex::DuplexTransport;
 use hyperdriver::server::conn::Acceptor;
 use hyperdriver::stream::duplex;
 use hyperdriver::{Body, Client, Server};
-use std::sync::atomic::{AtomicUsize, Ordering};
+use std::sync::atomic::{AtomicBool, AtomicUsize, Ordering};
 use std::sync::Arc;
 use std::time::{Duration, Instant};
 use tower::ServiceExt;
+use tower_http::follow_redirect::policy;
 
 type BoxError = Box<dyn std::error::Error + Send + Sync + 'static>;
+const UA: &str = "hdverif-agent/7";
 
 pub fn gen(r: &mut Rng, _i: u64) -> String {
-    let seq = r.below(7);
+    let seq = r.below(16);
     let max = *r.pick(&[0u64, 1, 1, 2, 3, 40]);
     let timeout = *r.pick(&["-", "-", "80"]);
     let n = r.range(1, 5);
     let wait = *r.pick(&[5u64, 5, 200]);
-    format!("{seq} {max} {timeout} {n} {wait}")
+    let rt = *r.pick(&["-", "150", "150", "5000"]);
+    // (the chains 11-13 end with a redirect call of their own: limited / standard / none)
+    let red = match seq { 11 => "l", 12 => "s", 13 => "n", _ => *r.pick(&["n", "s", "l"]) };
+    format!("{seq} {max} {timeout} {n} {wait} {rt} {red} {}", r.chance(1, 2) as u8)
 }
 
-struct Shared { n: usize, arrived: AtomicUsize, all: tokio::sync::Notify, open: AtomicUsize, total: AtomicUsize }
+struct Shared { n: usize, arrived: AtomicUsize, all: tokio::sync::Notify, open: AtomicUsize, total: AtomicUsize, ua_ok: AtomicBool }
 struct Guard(Arc<Shared>);
 impl Drop for Guard { fn drop(&mut self) { self.0.open.fetch_sub(1, Ordering::SeqCst); } }
 
 pub fn run(toks: &[&str]) -> String {
-    if toks.len() != 5 { return "bad-line".into(); }
+    if toks.len() != 8 { return "bad-line".into(); }
     let num = |i: usize| toks[i].parse::<u64>().ok();
     let (Some(seq), Some(max), Some(n), Some(wait)) = (num(0), num(1), num(3), num(4)) else { return "bad-line".into() };
     let timeout = num(2).map(Duration::from_millis);
+    let req_timeout = num(5).map(Duration::from_millis);
+    let (red, own_ua) = (toks[6].to_string(), toks[7] == "1");
     let n = n.clamp(1, 16) as usize;
     let rt = tokio::runtime::Builder::new_current_thread().enable_all().build().unwrap();
     rt.block_on(async move {
-        let sh = Arc::new(Shared { n, arrived: AtomicUsize::new(0), all: tokio::sync::Notify::new(), open: AtomicUsize::new(0), total: AtomicUsize::new(0) });
+        let sh = Arc::new(Shared { n, arrived: AtomicUsize::new(0), all: tokio::sync::Notify::new(), open: AtomicUsize::new(0), total: AtomicUsize::new(0), ua_ok: AtomicBool::new(true) });
         let (client_end, incoming) = duplex::pair();
         let acceptor = Acceptor::from(incoming);
         let sh2 = sh.clone();
@@ -54,10 +68,16 @@ pub fn run(toks: &[&str]) -> String {
                 Ok::<_, BoxError>(tower::service_fn(move |req: http::Request<Body>| {
                     let (sh, _guard) = (sh.clone(), guard.clone());
                     async move {
-                        if req.uri().path().starts_with("/burst") {
+                        if req.headers().get(http::header::USER_AGENT).and_then(|v| v.to_str().ok()) != Some(UA) { sh.ua_ok.store(false, Ordering::SeqCst); }
+                        let path = req.uri().path();
+                        if path.starts_with("/burst") {
                             // answered only when the whole burst has arrived: every request of it has a connection of its own
                             if sh.arrived.fetch_add(1, Ordering::SeqCst) + 1 >= sh.n { sh.all.notify_waiters(); }
                             else { let w = sh.all.notified(); if sh.arrived.load(Ordering::SeqCst) < sh.n { w.await; } }
+                        } else if path == "/slow" {
+                            tokio::time::sleep(Duration::from_millis(400)).await;
+                        } else if path == "/redir" {
+                            return Ok::<_, BoxError>(http::Response::builder().status(302).header("location", "/final").body(Body::empty()).unwrap());
                         }
                         Ok::<_, BoxError>(http::Response::new(Body::from("ok")))
                     }
@@ -73,20 +93,51 @@ pub fn run(toks: &[&str]) -> String {
         other.max_idle_per_host = 17;
         other.idle_timeout = Some(Duration::from_secs(3));
         let transport = DuplexTransport::new(64 * 1024, client_end);
-        macro_rules! finish { ($b:expr) => { $b.with_auto_http().without_redirects().without_tls().with_timeout(Duration::from_secs(5)).build().into_inner() } }
-        // the same configuration, handed to the builder in different ways
+        // seq 0-6: the rest of the configuration comes last
+        macro_rules! finish { ($b:expr) => {{
+            let b = $b.with_auto_http().without_tls().with_optional_timeout(req_timeout);
+            let b = if own_ua { b.with_user_agent(UA.to_string()) } else { b };
+            match red.as_str() {
+                "n" => b.without_redirects().build().into_inner().boxed_clone(),
+                "s" => b.with_standard_redirect_policy().build().into_inner().boxed_clone(),
+                _ => b.with_redirect_policy(policy::Limited::new(3)).build().into_inner().boxed_clone(),
+            }
+        }} }
+        // seq 7-15: everything is configured first …
+        macro_rules! first { () => {{
+            let b = Client::builder().with_pool(cfg).with_optional_timeout(req_timeout);
+            let b = if own_ua { b.with_user_agent(UA.to_string()) } else { b };
+            b
+        }} }
+        // … the redirect policy included, where the chain does not end with one of its own
+        macro_rules! chain { ($f:expr) => {{
+            match red.as_str() {
+                "n" => { let b = first!().without_redirects(); $f(b).without_tls().build().into_inner().boxed_clone() }
+                "s" => { let b = first!().with_standard_redirect_policy(); $f(b).without_tls().build().into_inner().boxed_clone() }
+                _ => { let b = first!().with_redirect_policy(policy::Limited::new(3)); $f(b).without_tls().build().into_inner().boxed_clone() }
+            }
+        }} }
         let svc = match seq {
-            0 => finish!(Client::builder().with_transport(transport).with_pool(cfg)).boxed_clone(),
-            1 => finish!(Client::builder().with_transport(transport).with_default_pool().with_pool(cfg)).boxed_clone(),
-            2 => finish!(Client::builder().with_transport(transport).without_pool().with_pool(cfg)).boxed_clone(),
-            3 => finish!(Client::builder().with_pool(cfg).with_transport(transport)).boxed_clone(),
-            4 => finish!(Client::builder().with_transport(transport).with_pool(other).with_pool(cfg)).boxed_clone(),
-            5 => finish!(hyperdriver::client::Builder::default().with_transport(transport).with_pool(cfg)).boxed_clone(),
-            _ => {
+            0 => finish!(Client::builder().with_transport(transport).with_pool(cfg)),
+            1 => finish!(Client::builder().with_transport(transport).with_default_pool().with_pool(cfg)),
+            2 => finish!(Client::builder().with_transport(transport).without_pool().with_pool(cfg)),
+            3 => finish!(Client::builder().with_pool(cfg).with_transport(transport)),
+            4 => finish!(Client::builder().with_transport(transport).with_pool(other).with_pool(cfg)),
+            5 => finish!(hyperdriver::client::Builder::default().with_transport(transport).with_pool(cfg)),
+            6 => {
                 let mut b = Client::builder().with_transport(transport).with_default_pool();
                 if let Some(p) = b.pool() { p.max_idle_per_host = max as usize; p.idle_timeout = timeout; }
-                finish!(b).boxed_clone()
+                finish!(b)
             }
+            7 => chain!(|b: hyperdriver::client::Builder<(), (), _>| b.with_transport(transport).with_auto_http()),
+            8 => chain!(|b: hyperdriver::client::Builder<(), (), _>| b.with_auto_http().with_transport(transport)),
+            9 => chain!(|b: hyperdriver::client::Builder<(), (), _>| b.with_tcp(Default::default()).with_transport(transport).with_auto_http()),
+            10 => chain!(|b: hyperdriver::client::Builder<(), (), _>| b.with_transport(transport).with_protocol(HttpConnectionBuilder::<Body>::default())),
+            11 => first!().with_transport(transport).with_auto_http().with_redirect_policy(policy::Limited::new(3)).without_tls().build().into_inner().boxed_clone(),
+            12 => first!().with_transport(transport).with_auto_http().with_standard_redirect_policy().without_tls().build().into_inner().boxed_clone(),
+            13 => first!().with_transport(transport).with_auto_http().without_redirects().without_tls().build().into_inner().boxed_clone(),
+            14 => chain!(|b: hyperdriver::client::Builder<(), (), _>| b.with_transport(transport).with_auto_http().layer(tower::layer::util::Identity::new())),
+            _ => chain!(|b: hyperdriver::client::Builder<(), (), _>| b.with_transport(transport).with_auto_http().with_body::<Body, Body>()),
         };
         let request = |path: String| http::Request::builder().uri(format!("http://origin.test{path}")).body(Body::empty()).unwrap();
         let mut hs = vec![];
@@ -101,14 +152,20 @@ pub fn run(toks: &[&str]) -> String {
         for h in hs { if !matches!(h.await, Ok(Ok(()))) { return "burst-failed".to_string(); } }
         let released = Instant::now();
         tokio::time::sleep(Duration::from_millis(20)).await;
+        // every task that is ready gets its turn before the count is read (a stalled machine may have fired the timer early)
+        for _ in 0..200 { tokio::task::yield_now().await; }
         let open = sh.open.load(Ordering::SeqCst);
         tokio::time::sleep(Duration::from_millis(wait)).await;
         let late = released.elapsed().as_millis() as u64 > 20 + wait + 25;
         let ok = match svc.clone().oneshot(request("/follow".into())).await { Ok(r) => r.into_body().collect().await.is_ok(), Err(_) => false };
         let total = sh.total.load(Ordering::SeqCst);
+        // the request timeout, the redirect policy and the user agent
+        let slow = match svc.clone().oneshot(request("/slow".into())).await { Ok(_) => "ok", Err(hyperdriver::client::Error::RequestTimeout) => "timeout", Err(_) => "err" };
+        let redir = match svc.clone().oneshot(request("/redir".into())).await { Ok(r) => r.status().as_u16().to_string(), Err(_) => "err".to_string() };
+        let ua = sh.ua_ok.load(Ordering::SeqCst) as u8;
         server.abort();
         if late { return "unreliable".into(); }
         if !ok { return "follow-up-failed".into(); }
-        format!("{open} {total}")
+        format!("{open} {total} ua={ua} slow={slow} redir={redir}")
     })
 }
